@@ -538,7 +538,12 @@ func phiNilFacts(facts string, from, to *ssa.BasicBlock) string {
 		if !ok {
 			break
 		}
-		if _, isIface := phi.Type().Underlying().(*types.Interface); !isIface || idx >= len(phi.Edges) {
+		switch phi.Type().Underlying().(type) {
+		case *types.Interface, *types.Pointer:
+		default:
+			continue
+		}
+		if idx >= len(phi.Edges) {
 			continue
 		}
 		key := fmt.Sprintf("nil:%p", phi)
